@@ -127,5 +127,8 @@ theorem datum_skeletons : Skeletons.DatumShape := Skeletons.datum_shape
 theorem exec_skeletons : Skeletons.ExecShape := Skeletons.exec_shape
 theorem codegenBefore_skeletons : Skeletons.CodegenBeforeShape := Skeletons.codegenBefore_shape
 theorem codegenAfter_skeletons : Skeletons.CodegenAfterShape := Skeletons.codegenAfter_shape
+theorem f_codegen_codegen_skeletons : Skeletons.F_codegen_codegenShape := Skeletons.f_codegen_codegen_shape
+theorem f_exporter_prometheus_skeletons : Skeletons.F_exporter_prometheusShape := Skeletons.f_exporter_prometheus_shape
+theorem f_datum_buckets_skeletons : Skeletons.F_datum_bucketsShape := Skeletons.f_datum_buckets_shape
 
 end MtailVerif.C21
